@@ -14,7 +14,14 @@ from harness.c04lib import FORMATS
 # ---------------------------------------------------------------------------
 
 def _exc(e: BaseException) -> str:
-    return f"{type(e).__name__}: {str(e)[:200]}"
+    out = f"{type(e).__name__}: {str(e)[:200]}"
+    seen = 0
+    c = e.__cause__ or e.__context__
+    while c is not None and seen < 6:       # nested dataclasses wrap the original error
+        out += f" <- {type(c).__name__}: {str(c)[:160]}"
+        c = c.__cause__ or c.__context__
+        seen += 1
+    return out
 
 
 def check_case(entry: L.Entry, v, opts: int | None = None):
@@ -142,14 +149,23 @@ def orjson_time_defect_present() -> bool:
     return _ORJSON_DEFECT
 
 
-def signature(S: L.Schema, F: str, kind: str, phase: str, observed: str, v) -> dict:
+def reaches_selfref(S: L.Schema, shp: L.T) -> bool:
+    """the shape reaches a dataclass one of whose fields refers to the class itself"""
+    return bool({"selfopt", "selflist"} & L.kinds_deep(shp, S))
+
+
+def signature(S: L.Schema, F: str, kind: str, phase: str, observed: str, v, shp=None) -> dict:
     sig = {"format": F, "entry": kind, "phase": phase, "kind": "other"}
+    if kind in ("codec", "func") and phase in ("build", "encode", "decode") and shp is not None and reaches_selfref(S, shp) \
+            and observed.startswith("AttributeError: type object 'attrs_") and "has no attribute '__mashumaro_" in observed:
+        sig["kind"] = "codec-self-referencing-dataclass"
+        return sig
     if F == "orjson" and phase in ("roundtrip", "doc") and has_orjson_bad_time(v) and orjson_time_defect_present():
         sig["kind"] = "orjson-library-time-microseconds-5-digits"
     if F == "toml" and phase in ("decode", "roundtrip"):
         hits = none_fields_without_none_default(S, v)
         if hits:
-            if phase == "decode" and observed.startswith("MissingField") and any(f'"{h}"' in observed for h in hits):
+            if phase == "decode" and any(f'MissingField: Field "{h}"' in observed for h in hits):
                 sig["kind"] = "toml-omitted-none-field-without-none-default"
             elif phase == "roundtrip":
                 sig["kind"] = "toml-omitted-none-field-without-none-default"
@@ -173,6 +189,7 @@ def oracle(ctx: vlib.Ctx, n_schemas: int, n_values: int, focus: str | None = Non
     rng = ctx.rng
     law_fail = []
     nfail = 0
+    per_kind: dict = {}
     for si in range(n_schemas):
         jsonkind = rng.choice(["json", "orjson"])
         S = L.Schema(rng, jsonkind)
@@ -210,7 +227,12 @@ def oracle(ctx: vlib.Ctx, n_schemas: int, n_values: int, focus: str | None = Non
                 shapes.append((L.T("tuplefix", [root, L.T("int")]), None))
             else:
                 fs = S.classes[root.name]["fields"]
-                shapes.append((rng.choice(fs)[1], None))
+                ft = rng.choice(fs)[1]
+                if ft.kind == "selfopt":     # a bare forward reference has no meaning outside its class
+                    ft = L.T("opt", root)
+                elif ft.kind == "selflist":
+                    ft = L.T("list", root)
+                shapes.append((ft, None))
             cache = {}
             for shp, _ in shapes:
                 shape_ann = L.ann(shp)
@@ -265,9 +287,10 @@ def oracle(ctx: vlib.Ctx, n_schemas: int, n_values: int, focus: str | None = Non
                                 ctx.sample({"shape": shape_ann, "format": F, "entry": kind, "value": L.vsrc(v)[:300]})
                             for phase, observed, expected in fails:
                                 nfail += 1
-                                sig = signature(S, F, kind, phase, observed, v)
+                                sig = signature(S, F, kind, phase, observed, v, shp)
                                 ctx.hist("failures", f"{F}:{kind}:{phase}:{sig['kind']}")
-                                if nfail <= 400:
+                                per_kind[sig["kind"]] = per_kind.get(sig["kind"], 0) + 1
+                                if per_kind[sig["kind"]] <= (300 if sig["kind"] == "other" else 40):
                                     ctx.fail(f"{F}/{kind}: {phase} fails on {shape_ann}: {observed[:160]}",
                                              {"entry": "format-roundtrip", "src": src, "shape": shape_ann, "root": root.name,
                                               "format": F, "kind": kind, "value_src": L.vsrc(v), "phase": phase,
